@@ -73,7 +73,10 @@ UnivMeta == {Md(F(<<"a">>, "plain"), x) : x \in MetaClasses \ {"std"}}
             \cup {Md(D(<<"d">>), "dt0"), Md(L(<<"l">>, <<"a">>), "dt0"), Md(F(<<"d", "a">>, "plain"), "dt0"), Md(D(<<"d">>), "dos")}
 \* the line-end dimension of text metadata: each kind of metadata member, in every line-end class, beside the file it describes
 CAP == F(<<".cap", "a">>, "cap")
-UnivText == {Md(t, x) : t \in {LNK, ABS, CAP, GMAP}, x \in LineEndClasses} \cup {CAP}
+\* (a gophermap is read in BINARY mode and cut at LF only - on disk and in the archive alike - so only the classes whose lines
+\* end in LF are gophermaps at all; a bare-CR file is one malformed line, which is C09 / C03 territory)
+UnivText == {Md(t, x) : t \in {LNK, ABS, CAP}, x \in LineEndClasses} \cup {CAP}
+            \cup {Md(GMAP, x) : x \in {"le_crlf", "le_nofinal", "le_seps"}}
 TextLists == IF MetaLen = 0 THEN {} ELSE {<<A, t>> : t \in UnivText} \cup {<<A, DA, t>> : t \in {Md(LNK, x) : x \in {"le_cr", "le_seps"}}}
 SeqsUpTo(U, n) == UNION {{s \in [1..k -> U] : Consistent(s)} : k \in 1..n}
 Lists == SeqsUpTo(UnivFull, FullLen) \cup SeqsUpTo(UnivCore, CoreLen) \cup SeqsUpTo(UnivMeta, MetaLen) \cup TextLists
